@@ -190,10 +190,15 @@ def parse_behaviour_file(path):
     return states
 
 
-def load_behaviours(prefix):
-    """All behaviour files written with file=<prefix>."""
+def load_behaviours(prefix, must_contain=None):
+    """All behaviour files written with file=<prefix> (optionally only those
+    whose text contains `must_contain`, e.g. an action label)."""
     out = []
     for p in sorted(glob.glob(prefix + "_*")):
         if os.path.isfile(p):
+            if must_contain is not None:
+                with open(p) as f:
+                    if must_contain not in f.read():
+                        continue
             out.append(parse_behaviour_file(p))
     return out
